@@ -3,7 +3,7 @@
    from the struct tags, the generated easyjson encoders and the MarshalJSON/ID methods of
    pkg/scan/{arp,tcp,icmp,socks5,elastic,docker} on every run. *)
 From Coq Require Import ZArith Bool Ascii String List.
-From SX Require Import Base.Bytes Model.Json Gen.Schemas Gen.UniqLoop Proofs.JsonProofs.
+From SX Require Import Base.Bytes Model.Json Gen.Schemas Gen.UniqLoop Gen.PutFresh Proofs.JsonProofs.
 Import ListNotations.
 Open Scope Z_scope.
 
@@ -115,6 +115,14 @@ Qed.
 Theorem C14_uniq_loop_shape : uniq_loop_ok uniq_loop = true.
 Proof. vm_compute. reflexivity. Qed.
 
+(* the three packet processors (Gen.PutFresh, translated from ProcessPacketData of arp, tcp, icmp on
+   every run) queue `&ScanResult{...}` allocated for that packet, and every reference inside it
+   (icmp's *Response) is allocated for it too: a queued result is a value nobody can rewrite while it
+   waits in the buffered result channel -- the premise under which [log_results] and [uniq_run],
+   which work on values, describe what is printed for what was produced *)
+Theorem C14_results_are_fresh : put_sites_ok put_sites = true.
+Proof. vm_compute. reflexivity. Qed.
+
 (* what the live ARP scan de-duplicates on is the printed address *)
 Theorem C14_arp_id_is_ip : forall ip mac vendor,
   result_id arp_schema [VS (VStr ip); VS (VStr mac); VS (VStr vendor)] = ip.
@@ -167,4 +175,5 @@ Print Assumptions C14_order.
 Print Assumptions C14_order_complete.
 Print Assumptions C14_uniq.
 Print Assumptions C14_uniq_loop_shape.
+Print Assumptions C14_results_are_fresh.
 Print Assumptions C14_arp_id_is_ip.
